@@ -22,7 +22,7 @@ PATH_INSTR = {"root", "name", "dotdot", "pathsetcurrent", "PredicatesStart", "Pr
 PROFILE = {
     # property: (families quick, families thorough, faults in MC, replay with faults, random vectors quick/thorough)
     "C01": dict(quick=[1, 2, 3, 4, 5, 6, 7], thorough=[1, 2, 3, 4, 5, 6, 7, 8, 9, 10], mc_faults=0, faults=False, rand=(400, 16000), rand_kind="scalar"),
-    "C02": dict(quick=[11, 12, 14, 18], thorough=[11, 12, 13, 14, 18], mc_faults=0, faults=False, rand=(300, 24000), rand_kind="path"),
+    "C02": dict(quick=[11, 12, 14, 18, 20], thorough=[11, 12, 13, 14, 18, 20], mc_faults=0, faults=False, rand=(300, 24000), rand_kind="path"),
     "C03": dict(quick=[15, 17, 19], thorough=[15, 16, 17, 19], mc_faults=0, faults=False, rand=(300, 16000), rand_kind="ops"),
     "C05": dict(quick=[4, 11, 14], thorough=[4, 6, 11, 12, 13, 14], mc_faults=4, faults=True, rand=(200, 8000), rand_kind="path"),
 }
@@ -166,6 +166,7 @@ def run(ctx):
     # A program that differs from Compile(ast) while every observable agrees (results, data-tree requests, all
     # renderings, every step of the trace under the instructions' own semantics) is no violation of any listed
     # property (C03 compares the renderings with each other): it is counted, not reported.
+    fam_of = {o["id"]: o.get("fam") for o in outcomes}
     other_fail_ids = {f["id"] for f in fails if f["site"] != "compile"}
     shape_only = {o["id"] for o in outcomes if o["mism"] and all(m["kind"] == "prog" for m in o["mism"]) and o["id"] not in other_fail_ids}
     if shape_only:
@@ -180,7 +181,8 @@ def run(ctx):
                 or (f["site"] == "end" and f["what"] in ("end:value", "end:denotation", "end:no-value", "end:unexpected-error"))
         elif prop == "C02":
             mine = (f["site"] == "step" and (f["instr"] in PATH_INSTR or (f["instr"] == "eq" and f["inPred"]))) \
-                or (f["site"] == "end" and f["what"] == "end:designated-calls") or f["site"] == "compile"
+                or (f["site"] == "end" and f["what"] == "end:designated-calls") or f["site"] == "compile" \
+                or (fam_of.get(f["id"]) == 20 and f["site"] == "end" and f["what"] in ("end:value", "end:denotation", "end:no-value", "end:unexpected-error"))
         elif prop == "C03":
             mine = f["site"] == "compile"
         elif prop == "C05":
@@ -190,16 +192,20 @@ def run(ctx):
             ctx.disagree(sig, f"trace rejected at {f['site']} {f['instr']} {f['fn']} ({f['what']})",
                          dict(kind="trace", failure=f, how="bin/check %s --tier %s; event index 'at' in the recorded trace of run id" % (prop, ctx.tier)))
     KINDS = {
-        "C01": {"result:bool", "result:string", "result:number", "error", "panic", "compile"},
-        "C02": {"calls", "prog", "compile", "panic", "history"},
-        "C03": {"variant-compile", "variant-prog", "variant-result", "prog", "compile"},
-        "C05": {"fault-error", "fault-panic", "fault-accessor", "panic"},
+        "C01": {"result:bool", "result:string", "result:number", "error", "panic", "compile", "hang"},
+        "C02": {"calls", "prog", "compile", "panic", "history", "hang", "result:bool", "result:string", "result:number", "error"},
+        "C03": {"variant-compile", "variant-prog", "variant-result", "prog", "compile", "hang"},
+        "C05": {"fault-error", "fault-panic", "fault-accessor", "panic", "hang"},
     }[prop]
     for o in outcomes:
         for m in o["mism"]:
             if m["kind"] not in KINDS:
                 continue
             if m["kind"] == "prog" and o["id"] in shape_only:
+                continue
+            if prop == "C02" and m["kind"].startswith("result") and (o.get("fam") != 20 or (o.get("vclass") == "multi" and m["kind"] != "result:bool")):
+                continue    # C02 owns the value of a plain path expression; conversions of a leaf-list value are C01's (recorded finding there)
+            if prop == "C02" and m["kind"] == "error" and o.get("fam") != 20:
                 continue
             explained = [f for f in by_id.get(o["id"], []) if (f.get("failAt", 0) > 0) == m["kind"].startswith("fault")]
             if explained and not m["kind"].startswith("variant"):
